@@ -13,7 +13,9 @@ def main():
     print(log[-3000:])
     if not ok:
         return 1
-    cmds = sorted(d for d in os.listdir(os.path.join(lib.HARNESS, "cmd")))
+    # only the commands the registered checks use (commands under construction are not built here)
+    from props import PROPS
+    cmds = sorted({c for cfg in PROPS.values() for c in cfg.get("go_cmds", [])})
     ok, log = lib.build_go(cmds)
     if not ok:
         print(log); return 1
